@@ -56,7 +56,9 @@ BRANCH_NAMES = ["origin/release/1.0", "origin/release/1.10", "origin/release/1.2
                 "origin/release/1.2.1", "origin/release/1.02", "origin/release/2-9", "origin/release/2-10",
                 "origin/release/3_1", "origin/release/3_10", "origin/release/rc-2", "origin/release/rc-10"]
 # (a search text may span a line break of the message)
-TEXTS = ["BUG-7", "BUG-71", "fix", "BUG-7 ", " change", "fix ", "\n\nrelated to BUG-7", "\nrelated"]
+# ... or be typed in the wrong case: it then occurs in no message and nothing is reported
+TEXTS = ["BUG-7", "BUG-71", "fix", "BUG-7 ", " change", "fix ", "\n\nrelated to BUG-7", "\nrelated", "bug-7", "Fix",
+         "Bug-71"]
 
 
 def gen_history(rng, max_commits=25):
